@@ -38,7 +38,7 @@ extern ssize_t mpt_encode_cobs_r(MPT_STRUCT(encode_state) *info, const struct io
 	left = cobs->iov_len;
 	if ((off > left)
 	    || !(dst = cobs->iov_base)) {
-		return -1;
+		return MPT_ERROR(BadArgument);
 	}
 	dst += off;
 	/* tail inline condition */
@@ -47,8 +47,8 @@ extern ssize_t mpt_encode_cobs_r(MPT_STRUCT(encode_state) *info, const struct io
 		--code;
 	}
 	/* need enough data to save end */
-	else if (left <= off) {
-		return -2;
+	else if (left - off <= code) {
+		return MPT_ERROR(MissingBuffer);
 	}
 	else {
 		*dst = code;
